@@ -30,6 +30,10 @@ def main(tier):
         total += n
         n, nt = progfam.replay(chk, sub, 4, ['--heldfirst'], OWNED, tag=fam + 'H', mode='expr', jobs=12)
         total += n
+        # general position: the named lattice transforms replaced by generic rotations / translations / scales / mirrors;
+        # the lazily and the eagerly built solid must agree (volume, status, winding at sample points away from the surface)
+        n, nt = progfam.replay(chk, sub, 4, ['--generic'], OWNED, tag=fam + 'G', mode='expr', jobs=12)
+        total += n
     num = 60 if tier == 'quick' else 2500
     behs, r = progfam.generate('GenC03sim.cfg', simulate=num, timeout=3000)
     n1, nt1 = progfam.replay(chk, behs, 2, [], OWNED, tag='lazy')
